@@ -70,6 +70,35 @@ func (fr *Frame) callValue(in ssa.CallInstruction, c *ssa.CallCommon, fv Val, ar
 			ex.usedAsserts[site] = true
 		}
 	}
+	// "callee#*" also covers calls made from inlined callees, closures and deferred functions of the function
+	// under verification (named callee#<inlined function>.<k>); the function's own locals have the values
+	// they have at that moment
+	if !fr.top && ex.fc != nil && ex.topFrame != nil && len(ex.fc.CallAsserts[name+"#*"]) > 0 {
+		site := fmt.Sprintf("%s#%s.%d", name, fr.fn.Name(), fr.callOrd[in])
+		ex.usedAsserts[name+"#*"] = true
+		cenv := ex.topFrame.topEnv(fr.st)
+		cenv.old = ex.entry
+		// variables of the function under verification that the closures on the way captured
+		for p := fr; p != nil && !p.top; p = p.parent {
+			for _, fv := range p.fn.FreeVars {
+				if pv, ok := p.vals[fv]; ok && pv.K == VPtr {
+					if _, have := cenv.vars[fv.Name()]; !have {
+						cenv.vars[fv.Name()] = TV{V: ex.load(fr.st, pv.P, pv.P.Elem), T: pv.P.Elem}
+					}
+				}
+			}
+		}
+		for i, a := range c.Args {
+			if i < len(args) {
+				cenv.vars[fmt.Sprintf("arg%d", i)] = TV{V: args[i], T: a.Type()}
+			}
+		}
+		for _, cl := range ex.fc.CallAsserts[name+"#*"] {
+			g := fr.evalClause(cenv, cl)
+			ex.addOblig("assert@", site+":"+cl.Label, ex.prog.pos(in.Pos()), mkImp(fr.cur, g), cl.Src)
+			fr.assume(g)
+		}
+	}
 	// builtins
 	if b, ok := c.Value.(*ssa.Builtin); ok {
 		return fr.builtin(in, b, c, args)
@@ -494,11 +523,29 @@ func (fr *Frame) intrinsic(in ssa.CallInstruction, fn *ssa.Function, full string
 // the result is a sorted permutation of the input.
 func (fr *Frame) sortIntrinsic(in ssa.CallInstruction, c *ssa.CallCommon, args []Val) Val {
 	ex := fr.ex
-	mi, ok := c.Args[0].(*ssa.MakeInterface)
-	if !ok {
+	desc := false
+	var mi *ssa.MakeInterface
+	switch a := c.Args[0].(type) {
+	case *ssa.MakeInterface:
+		mi = a
+	case *ssa.Call:
+		// sort.Sort(sort.Reverse(x)): descending order of x's Less
+		if f := a.Call.StaticCallee(); f != nil && f.Pkg != nil && f.Pkg.Pkg.Path() == "sort" && f.Name() == "Reverse" {
+			if m, ok := a.Call.Args[0].(*ssa.MakeInterface); ok {
+				mi, desc = m, true
+			}
+		}
+	}
+	if mi == nil {
 		panic(oos("sort.Sort on a value of unknown dynamic type"))
 	}
 	dt := mi.X.Type()
+	if less, ok := ex.ctr.SortOrders[typeKey(dt)]; ok {
+		return fr.sortDeclared(mi, dt, less, desc)
+	}
+	if desc {
+		return fr.defaultExternal(in, "sort.Sort<reverse "+typeKey(dt)+">", c, []Val{fr.val(mi.X)}, false)
+	}
 	if typeKey(dt) != "uint64Slice" {
 		return fr.defaultExternal(in, "sort.Sort<"+typeKey(dt)+">", c, []Val{fr.val(mi.X)}, false)
 	}
@@ -530,6 +577,53 @@ func (fr *Frame) sortIntrinsic(in ssa.CallInstruction, c *ssa.CallCommon, args [
 }
 
 type sortInfo struct{ perm, inv, off, ln string }
+
+// sortDeclared: assumed contract of sort.Sort for a slice type with a declared order
+// (//@ sortorder <SliceType> <spec less(a, b)>; the type's own Less method is verified against that spec):
+// the elements afterwards are a permutation of the elements before, and no later element is less than an
+// earlier one (descending: no earlier element is less than a later one). Single-leaf element types only.
+func (fr *Frame) sortDeclared(mi *ssa.MakeInterface, dt types.Type, less string, desc bool) Val {
+	ex := fr.ex
+	et := dt.Underlying().(*types.Slice).Elem()
+	ls := leavesOf(et)
+	if len(ls) != 1 {
+		panic(oos("sort.Sort with a declared order on a multi-leaf element type %s", typeKey(et)))
+	}
+	dir := "ascending"
+	if desc {
+		dir = "descending"
+	}
+	ex.assumed["sort.Sort on "+typeKey(dt)+": result is a permutation of the input, "+dir+" by "+less+" (assumed; the type's Less is verified against that spec)"] = true
+	s := fr.val(mi.X)
+	key := "E." + typeKey(et) + "." + ls[0].Path
+	srt := SArr(SInt, SArr(SInt, ls[0].Sort))
+	a := ex.get(fr.st, key, srt)
+	oldRow := ex.sc.Define("sort.old", SArr(SInt, ls[0].Sort), mkSelect(a, s.Fs[0].T))
+	newRow := ex.sc.Fresh("sort.new", SArr(SInt, ls[0].Sort))
+	perm := ex.sc.DeclareFun(ex.sc.fresh("sort.perm"), []Sort{SInt}, SInt)
+	inv := ex.sc.DeclareFun(ex.sc.fresh("sort.inv"), []Sort{SInt}, SInt)
+	off, ln := s.Fs[1].T, s.Fs[2].T
+	hi := ex.sc.Define("sort.hi", SInt, mkApp("+", off, ln))
+	inw := func(p string) string { return fmt.Sprintf("(and (<= %s %s) (< %s %s))", off, p, p, hi) }
+	inr := func(j string) string { return fmt.Sprintf("(and (<= 0 %s) (< %s %s))", j, j, ln) }
+	// perm/inv map relative positions [0, len) onto each other; element j afterwards is element perm(j) before
+	fr.assume(fmt.Sprintf("(forall ((j Int)) (! (=> %s (and %s (= (%s (%s j)) j) (= (select %s %s) (select %s %s)))) :pattern ((%s j)) :pattern ((select %s %s))))",
+		inr("j"), inr("("+perm+" j)"), inv, perm, newRow, ex.sidx(off, "j"), oldRow, ex.sidx(off, "("+perm+" j)"), perm, newRow, ex.sidx(off, "j")))
+	fr.assume(fmt.Sprintf("(forall ((j Int)) (! (=> %s (and %s (= (%s (%s j)) j))) :pattern ((%s j))))",
+		inr("j"), inr("("+inv+" j)"), perm, inv, inv))
+	fr.assume(fmt.Sprintf("(forall ((p Int)) (! (=> (not %s) (= (select %s p) (select %s p))) :pattern ((select %s p))))", inw("p"), newRow, oldRow, newRow))
+	ex.set(fr.st, key, srt, mkStore(a, s.Fs[0].T, newRow))
+	fr.lastSort = &sortInfo{perm: perm, inv: inv, off: off, ln: ln}
+	// order, stated in the contract language over the sorted slice
+	cmp := less + "(sorted__[b], sorted__[a])"
+	if desc {
+		cmp = less + "(sorted__[a], sorted__[b])"
+	}
+	e := parseExpr("forall a int, b int :: 0 <= a && a < b && b < len(sorted__) ==> !"+cmp, 0)
+	env := &Env{ex: ex, st: fr.st, vars: map[string]TV{"sorted__": {V: s, T: dt}}}
+	fr.assume(env.evalBool(e))
+	return vUnit
+}
 
 // ---- contracts at call sites -------------------------------------------------------
 
